@@ -93,4 +93,10 @@ def build [BEq α] [LT α] [DecidableLT α] [Add α] [Sub α] [Mul α] [Div α] 
     let gs := grids ops tolMax (bounds.getD 0 []) (bounds.getD 1 []) prec
     .ok (gs, spaceSize gs)
 
+/-- the documented `SearchSpaceError` subclasses, in the order in which `_check_bounds` can raise them (compared on every run with the subclasses the
+package under test defines) -/
+def errorNames : List String :=
+  ["BoundsNotOfSizeTwoError", "BoundsOfDifferentLengthError", "BadPrecisionLengthError", "SameLowerAndUpperBoundError",
+   "LowerBoundGreaterThanUpperBoundError", "PrecisionZeroError", "PrecisionGreaterThanBoundsRangeError"]
+
 end BlackIt.SearchSpace
